@@ -136,7 +136,7 @@ class Pruner:
         s.S = z3.SolverFor('QF_FD'); s.S.set('timeout', 5000); s.nd = 0; s.na = 0; s.assumes = assumes; s.calls = 0; s.dropped = 0; s.time = 0.0
     def sat(s, g):
         import time as _t
-        t0 = _t.time()
+        t0 = _t.process_time()
         S = s.S
         for a in name.defs[s.nd:]: S.add(a)
         s.nd = len(name.defs)
@@ -146,12 +146,12 @@ class Pruner:
         if _C.Z3_get_app_num_args(_cr, g.ast) != 0:      # QF_FD wants a propositional literal
             b = name(g) if not z3.is_not(g) else None
             if b is None:
-                S.push(); S.add(g); r = S.check(); S.pop(); s.time += _t.time() - t0; return r != z3.unsat
+                S.push(); S.add(g); r = S.check(); S.pop(); s.time += _t.process_time() - t0; return r != z3.unsat
             g = b
             for a in name.defs[s.nd:]: S.add(a)
             s.nd = len(name.defs)
         r = S.check(g)
-        s.time += _t.time() - t0
+        s.time += _t.process_time() - t0
         return r != z3.unsat
     def prune(s, d):
         if s.S is None or not s.enabled or s.time > s.budget: return d
